@@ -61,9 +61,14 @@ def route_distinguisher(tokeniser: Any) -> RouteDistinguisher:
     data = tokeniser()
 
     separator = data.find(':')
-    if separator > 0:
-        prefix = data[:separator]
-        suffix = int(data[separator + 1 :])
+    if separator <= 0:
+        raise ValueError(
+            f"'{data}' is not a valid route-distinguisher\n  Format: <asn>:<number> or <ipv4 address>:<number>"
+        )
+    prefix = data[:separator]
+    suffix = int(data[separator + 1 :])
+    if suffix < 0:
+        raise ValueError(f'invalid route-distinguisher {data}')
 
     if '.' in prefix:
         data_list: list[bytes] = [bytes([0, 1])]
@@ -72,6 +77,8 @@ def route_distinguisher(tokeniser: Any) -> RouteDistinguisher:
         rtd = b''.join(data_list)
     else:
         number = int(prefix)
+        if number < 0:
+            raise ValueError(f'invalid route-distinguisher {data}')
         if number < pow(2, 16) and suffix < pow(2, 32):
             rtd = bytes([0, 0]) + pack('!H', number) + pack('!L', suffix)
         elif number < pow(2, 32) and suffix < pow(2, 16):
